@@ -244,6 +244,16 @@ func runWorld(p *Prop, t *simrt.Tape, trace bool) (res Result) {
 				if res.V.Facts == nil && w.opFacts != nil {
 					res.V.Facts = w.opFacts
 				}
+				if w.worldFacts != nil {
+					if res.V.Facts == nil {
+						res.V.Facts = map[string]string{}
+					}
+					for k, v := range w.worldFacts {
+						if _, ok := res.V.Facts[k]; !ok {
+							res.V.Facts[k] = v
+						}
+					}
+				}
 			}
 		}()
 		p.Run(w)
